@@ -8,6 +8,8 @@ let rec nat_of_int n = if n <= 0 then O else S (nat_of_int (n - 1))
 let rec int_of_nat = function O -> 0 | S n -> 1 + int_of_nat n
 let rec int_of_pos = function XH -> 1 | XO p -> 2 * int_of_pos p | XI p -> 2 * int_of_pos p + 1
 let int_of_z = function Z0 -> 0 | Zpos p -> int_of_pos p | Zneg p -> - (int_of_pos p)
+let rec pos_of_int n = if n <= 1 then XH else if n land 1 = 0 then XO (pos_of_int (n lsr 1)) else XI (pos_of_int (n lsr 1))
+let z_of_int n = if n = 0 then Z0 else if n > 0 then Zpos (pos_of_int n) else Zneg (pos_of_int (-n))
 
 type lcase = { gen : int; level : string; kind : string; n : int; index : int; outcomes : string list;
                mutable lines : string list list }
@@ -53,6 +55,17 @@ let observed_calls c = List.filter (function ("call" :: ("upload" | "acquire" | 
 (* model verdict for one case: None = agrees *)
 let check_model codes (c : lcase) : string option =
   let g = if c.gen = 1 then V1 else V2 in
+  if c.kind = "provres" then begin
+    (* the getters after every call, and the events each call raises, against prov_step / prov_capacity *)
+    let m = z_of_int c.n in
+    let pev = function PECapacity v -> Printf.sprintf "ev capacity %d" (int_of_z v) | PEShutdown -> "ev shutdown 0" in
+    let expected = List.concat_map (fun o ->
+        let op = (match o with "provision" -> POProvision | "start" -> POStart | "stop" -> POStop | _ -> POGiveMe) in
+        List.map pev (prov_step m op) @ [Printf.sprintf "caps %d %d" (int_of_z (prov_capacity m)) (int_of_z (prov_max_capacity m))]) c.outcomes in
+    let observed = List.filter_map (fun l -> match l with ("ev" | "caps") :: _ -> Some (String.concat " " l) | _ -> None) c.lines in
+    if observed <> expected then Some (Printf.sprintf "provisioned resource: observed [%s], model [%s]" (String.concat "; " observed) (String.concat "; " expected))
+    else None
+  end else
   let evs, ret, ncalls =
     match c.kind with
     | "provision" ->
@@ -119,6 +132,10 @@ let check_monitor (c : lcase) : string list =
                if path <> Printf.sprintf "/cont/%d" i then hit "blob-name";
                if not (List.mem "ifnonematch=*" rest) then hit "overwrite-allowed"
            | _ -> ()) calls
+   | "provres" ->
+       List.iter (function
+           | ["caps"; a; b] -> if ios a <> c.n || ios b <> c.n then hit "provisioned-capacity"
+           | _ -> ()) c.lines
    | _ -> ());
   List.rev !hits
 
